@@ -368,7 +368,9 @@ def run_property(mod, tier, seedv, only=None, jobs=None):
   violations = []
   known_hits = {}
   errors = []
-  os.makedirs(os.path.join(ROOT, "replays"), exist_ok=True)
+  rdir = os.environ.get("VERIF_REPLAY_DIR") or os.path.join(ROOT, "replays")
+  edir = os.environ.get("VERIF_EVIDENCE_DIR") or os.path.join(ROOT, "evidence")
+  os.makedirs(rdir, exist_ok=True)
   for name, m in per.items():
     errors.extend("%s: %s" % (name, e) for e in m["errors"])
     if m["fails"]:
@@ -382,7 +384,7 @@ def run_property(mod, tier, seedv, only=None, jobs=None):
           known_hits[site] = f
           continue
         h = "%016x" % codec.chash(codec.dec(f["case"]))
-        path = os.path.join(ROOT, "replays", "%s-%s-%s.json" % (mod.ID, name, h[:10]))
+        path = os.path.join(rdir, "%s-%s-%s.json" % (mod.ID, name, h[:10]))
         with open(path, "w") as fh:
           json.dump({"property": mod.ID, "clause": f.get("clause", name), "case": f["case"],
                      "detail": f["detail"], "site": site, "seed": seedv, "tier": tier},
@@ -446,8 +448,8 @@ def run_property(mod, tier, seedv, only=None, jobs=None):
         validate_evidence(ev)
     except HarnessError as e:
       errors.append(str(e))
-    os.makedirs(os.path.join(ROOT, "evidence"), exist_ok=True)
-    with open(os.path.join(ROOT, "evidence", mod.ID + ".json"), "w") as fh:
+    os.makedirs(edir, exist_ok=True)
+    with open(os.path.join(edir, mod.ID + ".json"), "w") as fh:
       json.dump(ev, fh, indent=1, sort_keys=True)
   for e in errors:
     print("HARNESS-ERROR property=%s %s" % (mod.ID, e), file=sys.stderr)
